@@ -1097,8 +1097,28 @@ def C05(ctx):
     multi_deferred = set()   # occurrences pending while states of >= 2 regions deferred their type
     waited = {}
 
-    def deferred_by_active(tname):
-        return any(tname in dfr.get(s, ()) for s in active)
+    # conditional deferral (backmp11 is_event_deferred): (state, type) -> atom of the predicate; the predicate's verdict for an
+    # occurrence is read from the trace (token g<atom>=v/<type>#<payload>), never assumed
+    cond = {}
+    for s_, (nm_, ri_) in st.state_owner.items():
+        for e_, a_ in st.machine[nm_]['states'][s_].get('cond_defer') or []:
+            cond[(s_, e_)] = a_
+    cond_atoms = {(a_, e_) for (s_, e_), a_ in cond.items()}
+    lastpred = {}        # payload -> last verdict of a deferral predicate for this occurrence
+
+    def deferred_by_active(tname, pl=None):
+        """True / False, or None when only conditional deferrers are entered and no verdict for pl has been seen"""
+        unknown = False
+        for s in active:
+            if tname in dfr.get(s, ()):
+                if (s, tname) not in cond:
+                    return True
+                v = lastpred.get(pl)
+                if v:
+                    return True
+                if v is None:
+                    unknown = True
+        return None if unknown else False
 
     for i, c in enumerate(ctx.case):
         if i >= len(ctx.sut):
@@ -1112,7 +1132,7 @@ def C05(ctx):
             etype[c['payload']] = evname[c['ev']]
             pending.append(c['payload'])
             own = c['payload']
-            if deferred_by_active(evname[c['ev']]):
+            if deferred_by_active(evname[c['ev']], own) is True:
                 stamp[own] = i
                 exact.add(own)
                 classes['deferred_on_arrival'] += 1
@@ -1131,6 +1151,16 @@ def C05(ctx):
             p = parse(t)
             if not p:
                 continue
+            if p[0] == 'g' and (p[1], p[3].split('#')[0]) in cond_atoms and payload_of(p) is not None:
+                # verdict of a deferral predicate: not a dispatch
+                pl = payload_of(p)
+                lastpred[pl] = bool(p[2])
+                if p[2] and pl not in stamp:
+                    stamp[pl] = i
+                    if pl == own:
+                        exact.add(pl)
+                    classes['deferred_by_predicate'] += 1
+                continue
             if p[0] in ('g', 'a', 'en', 'ex', 'nt', 'xc'):
                 pl = payload_of(p)
                 if pl is not None and pl != cur:
@@ -1141,7 +1171,7 @@ def C05(ctx):
                     if pl not in etype:
                         fail('C05', 'behaviour saw an occurrence #%d that was never submitted' % pl, ctx, i)
                     tn = etype[pl]
-                    if deferred_by_active(tn):
+                    if deferred_by_active(tn, pl) is True:
                         what = 'reported through no_transition' if p[0] == 'nt' else 'dispatched (%s)' % t
                         fail('C05', 'occurrence #%d of deferred type %s was %s while the entered states %s defer it'
                              % (pl, tn, what, sorted(s for s in active if tn in dfr.get(s, ()))), ctx, i)
@@ -1184,7 +1214,7 @@ def C05(ctx):
             if sum(1 for s_ in active if tn in dfr.get(s_, ())) >= 2:
                 multi_deferred.add(pl)
             if pl in stamp or offers_all:
-                if not deferred_by_active(tn) and opk in ('P', 'X', 'S'):
+                if deferred_by_active(tn, pl) is False and opk in ('P', 'X', 'S'):
                     sig = None
                     if opk == 'X' and c.get('mode') == 's' and dialect_of(ctx.cfg) == 'mp11' and pl in stamp:
                         sig = 'deferred_not_reoffered_after_single_step'
